@@ -657,6 +657,18 @@ func (b barrierRes) String() string {
 	return [...]string{"acked", "goaway", "closed", "timeout"}[b]
 }
 
+// errGoAwayLocked returns the first GOAWAY carrying an error code. A GOAWAY(NO_ERROR) is a
+// graceful shutdown notice: the connection stays usable (RFC 7540 6.8), so it does not end
+// a barrier.
+func (c *client) errGoAwayLocked() *frame {
+	for i := range c.frames {
+		if c.frames[i].Typ == fGoAway && c.frames[i].Code != errNo {
+			return &c.frames[i]
+		}
+	}
+	return nil
+}
+
 func (c *client) goAwayLocked() *frame {
 	for i := range c.frames {
 		if c.frames[i].Typ == fGoAway {
@@ -691,7 +703,7 @@ func (c *client) barrier() barrierRes {
 				return true
 			}
 		}
-		if c.goAwayLocked() != nil {
+		if c.errGoAwayLocked() != nil {
 			res = bGoAway
 			return true
 		}
@@ -831,19 +843,21 @@ type rigOpts struct {
 	S2CCap     int    // server->client "socket buffer" in bytes
 	Settings   []uint32
 	Auto       *hAction
+	Graceful   time.Duration // BaseConfig.GracefulShutdownTimeout
 }
 
 type rig struct {
-	cli      *client
-	cconn    *memConn
-	sconn    *memConn
-	sc       *bfe_http2.VerifH2bConn
-	served   chan struct{}
-	h        *handlerCtl
-	panics0  int64
-	logMark  int
-	advMax   uint32 // SETTINGS_MAX_CONCURRENT_STREAMS as advertised to the client
-	finished bool
+	cli         *client
+	cconn       *memConn
+	sconn       *memConn
+	sc          *bfe_http2.VerifH2bConn
+	served      chan struct{}
+	h           *handlerCtl
+	panics0     int64
+	logMark     int
+	advMax      uint32 // SETTINGS_MAX_CONCURRENT_STREAMS as advertised to the client
+	finished    bool
+	closeNotify chan bool // BaseConfig.CloseNotifyCh: closing it starts bfe's graceful shutdown
 }
 
 // tbx is what the checks need from *testing.T / *rapid.T.
@@ -866,8 +880,9 @@ func startRig(o rigOpts) (*rig, error) {
 	r := &rig{cconn: cc, sconn: sc, served: make(chan struct{}), h: newHandlerCtl(), panics0: panicConnCount(), logMark: logCap.mark()}
 	r.h.auto = o.Auto
 	srv := &bfe_http2.Server{MaxConcurrentStreams: o.MaxStreams}
+	r.closeNotify = make(chan bool)
 	opts := &bfe_http2.ServeConnOpts{
-		BaseConfig: &bfe_http.Server{ReadTimeout: 60 * time.Second, CloseNotifyCh: make(chan bool)},
+		BaseConfig: &bfe_http.Server{ReadTimeout: 60 * time.Second, CloseNotifyCh: r.closeNotify, GracefulShutdownTimeout: o.Graceful},
 		Handler:    r.h,
 	}
 	go func() {
